@@ -5,6 +5,7 @@ mod kernel;
 mod obs;
 mod sampler;
 mod scope;
+mod sprops;
 mod table;
 
 use common::*;
@@ -48,6 +49,7 @@ fn main() {
             let case = &v["case"];
             match case["engine"].as_str().unwrap_or("") {
                 "table" => table::replay(&ctx, case),
+                "sampler" => sprops::replay_point(&ctx, case),
                 "kernel" => match case["kind"].as_str().unwrap_or("") {
                     "gamma" | "gamma-pair" => kernel::replay_gamma(case),
                     "matrix" => kernel::replay_matrix(&ctx, case),
@@ -65,6 +67,7 @@ fn main() {
                 "C15" => kernel::run_c15(&ctx),
                 "C16" => kernel::run_c16(&ctx),
                 "C20" => kernel::run_c20(&ctx),
+                "C07" | "C08" | "C09" | "C10" | "C11" | "C13" => sprops::run_simple(&ctx),
                 _ => {
                     eprintln!("no engine for {prop}");
                     2
